@@ -1,0 +1,91 @@
+"""
+Verification hook (inert unless the environment variable WHATSHAP_VERIF_TRACE names a file).
+
+When enabled, `whatshap phase` appends one JSON line per (chromosome, family) describing the
+instance handed to the phasing algorithm and everything it returned. Nothing in whatshap
+reads this file; it exists so that external checkers can validate recorded executions.
+"""
+
+import json
+import os
+
+
+def enabled() -> bool:
+    return bool(os.environ.get("WHATSHAP_VERIF_TRACE"))
+
+
+def trace_phase_instance(
+    chromosome,
+    family,
+    trios,
+    all_reads,
+    accessible_positions,
+    homozygous_positions,
+    pedigree,
+    recombination_costs,
+    distrust_genotypes,
+    genetic_haplotyping,
+    max_coverage,
+    algorithm,
+    dp_table,
+    superreads_list,
+    transmission_vector,
+    overall_components,
+    numeric_sample_ids,
+):
+    path = os.environ.get("WHATSHAP_VERIF_TRACE")
+    if not path:
+        return
+    id_to_name = {numeric_sample_ids[name]: name for name in family}
+    reads = [
+        {
+            "name": read.name,
+            "source": read.source_id,
+            "sample": id_to_name.get(read.sample_id, str(read.sample_id)),
+            "vars": [[v.position, v.allele, v.quality] for v in read],
+        }
+        for read in all_reads
+    ]
+    genotypes = {}
+    likelihoods = {}
+    for sample in family:
+        genotypes[sample] = [
+            [int(a) for a in pedigree.genotype(sample, i).as_vector()]
+            for i in range(len(accessible_positions))
+        ]
+        if distrust_genotypes:
+            gls = []
+            for i in range(len(accessible_positions)):
+                gl = pedigree.genotype_likelihoods(sample, i)
+                gls.append(None if gl is None else [float(x) for x in gl])
+            likelihoods[sample] = gls
+    superreads = {}
+    for sample, sample_superreads in zip(family, superreads_list):
+        superreads[sample] = [
+            [[v.position, v.allele, v.quality] for v in haplotype] for haplotype in sample_superreads
+        ]
+    record = {
+        "ev": "H1",
+        "chromosome": chromosome,
+        "family": list(family),
+        "trios": [[t.father, t.mother, t.child] for t in trios],
+        "algorithm": algorithm,
+        "max_coverage": max_coverage,
+        "distrust_genotypes": bool(distrust_genotypes),
+        "genetic_haplotyping": bool(genetic_haplotyping),
+        "reads": reads,
+        "accessible_positions": [int(p) for p in accessible_positions],
+        "homozygous_positions": sorted(int(p) for p in homozygous_positions),
+        "genotypes": genotypes,
+        "likelihoods": likelihoods,
+        "recombination_costs": [int(c) for c in recombination_costs],
+        "cost": int(dp_table.get_optimal_cost()),
+        "partition": [int(x) if isinstance(x, int) else -1 for x in dp_table.get_optimal_partitioning()],
+        "transmission_vector": None
+        if transmission_vector is None
+        else [int(t) for t in transmission_vector],
+        "superreads": superreads,
+        "components": sorted([int(p), int(c)] for p, c in overall_components.items()),
+    }
+    with open(path, "a") as f:
+        f.write(json.dumps(record) + "\n")
